@@ -84,7 +84,8 @@ CHECKS = {
              "TLC validates every event and every real directory listing against the module with all invariants on.",
         design="5/C06",
         note="Crash points are system-call boundaries; byte-level framing and gzip decoding are done by the projection (python zlib, GNU "
-             "gzip), not by TLA+; environment rules in DESIGN 3.1j.",
+             "gzip), not by TLA+; environment rules in DESIGN 3.1j.  Time zones (the local date going back) are part of the model "
+             "(MC_Rot_C06_zone.cfg); one situation there is a known finding (known_findings.txt key=zone-tie, DESIGN 12.3).",
         technique=TECH,
     ),
     "C07": dict(
